@@ -4,6 +4,7 @@
   carries exactly the events of `gen_outputs`, in order (`renderAll_events`).
 -/
 import XotModel.Lemmas.Events
+import XotModel.Lemmas.Output
 import XotModel.Lemmas.FmapReads
 
 namespace XotModel
@@ -177,6 +178,67 @@ mutual
         obtain ⟨i, p, h⟩ := erase_at_of_findList e ks t hf
         exact ⟨i + 1, p, by simpa [eraseList] using h⟩
 end
+
+
+/-- The string serialisation is the concatenation of the token texts, each preceded by one
+    space when so flagged (this is `C16_tokens`). -/
+theorem tokens_string (esc : Escapers) (env : Env) (pr : TokenParams) (t : Tree) (start : Path)
+    (ks : List (Path × Output × OutputToken)) (h : tokensWith esc env pr t start = .ok ks) :
+    serializeStringWith esc env pr t start =
+      .ok (ks.flatMap (fun k => (if k.2.2.space then [' '] else []) ++ k.2.2.text)) := by
+  have hsp : tokenSpace = [' '] := by decide
+  unfold tokensWith at h
+  unfold serializeStringWith serializeWriteWith bufferToString
+  cases hr : renderAllWith esc env pr t (initStack t start) (genOutputs t start) with
+  | ok l =>
+    simp only [hr] at h
+    cases h
+    rw [writeGo_of_renderAll_ok esc env pr t _ _ _ hr]
+    simp [streamBytes, tokenBytes, hsp]
+  | err e => simp [hr] at h
+  | panic => simp [hr] at h
+
+open Forest (MapKind) in
+/-- The start tag of a forest element in the event stream, the token stream and the string. -/
+theorem serialisation_order (f : Forest) (e name : Nat) (t : HTree) (hg : f.get? e = some t)
+    (hv : t.value = .element name) (T : Tree) (start rel : Path) (n : Tree)
+    (inScope : List (Nat × Nat)) (hn : T.at? start = some n)
+    (hs : namespacesInScope T start = some inScope) (hrel : n.at? rel = some (HTree.erase t)) :
+    (∃ pre post, genOutputs T start =
+      pre ++ [(start ++ rel, Output.startTagOpen name)]
+        ++ (if rel.isEmpty then extraPrefixes inScope (HTree.erase t) else []).map
+            (fun o => (start ++ rel, o))
+        ++ (absNs f e).map (fun d => (start ++ rel, Output.pfx d.1 d.2))
+        ++ (absAttrs f e).map (fun a => (start ++ rel, Output.attribute a.1 a.2))
+        ++ [(start ++ rel, Output.startTagClose)] ++ post) ∧
+    ∀ (esc : Escapers) (env : Env) (pr : TokenParams) (ks : List (Path × Output × OutputToken)),
+      tokensWith esc env pr T start = .ok ks →
+      (∃ k1 kd ka k2, ks = k1 ++ kd ++ ka ++ k2 ∧
+        kd.map (fun k => (k.1, k.2.1)) = (absNs f e).map (fun d => (start ++ rel, Output.pfx d.1 d.2)) ∧
+        ka.map (fun k => (k.1, k.2.1)) =
+          (absAttrs f e).map (fun a => (start ++ rel, Output.attribute a.1 a.2))) ∧
+      serializeStringWith esc env pr T start =
+        .ok (ks.flatMap (fun k => (if k.2.2.space then [' '] else []) ++ k.2.2.text)) := by
+  have hve : (HTree.erase t).value = .element name := by rw [erase_value, hv]
+  obtain ⟨pre, post, hev⟩ := genOutputs_startTag T start rel n _ inScope name hn hs hrel hve
+  have hns : (HTree.erase t).nsDecls = absNs f e := by
+    unfold absNs Fmap.abs; rw [hg]; exact nsDecls_erase t
+  have hat : (HTree.erase t).attrs = absAttrs f e := by
+    unfold absAttrs Fmap.abs; rw [hg]; exact attrs_erase t
+  rw [hns, hat] at hev
+  refine ⟨⟨pre, post, hev⟩, ?_⟩
+  intro esc env pr ks hk
+  refine ⟨?_, tokens_string esc env pr T start ks hk⟩
+  have hm := tokens_events esc env pr T start ks hk
+  rw [hev] at hm
+  obtain ⟨l1, k2a, h1, _, h2⟩ := map_split _ ks _ _ (by
+    simpa only [List.append_assoc] using hm : ks.map (fun k => (k.1, k.2.1)) =
+      (pre ++ ([(start ++ rel, Output.startTagOpen name)] ++
+        (if rel.isEmpty then extraPrefixes inScope (HTree.erase t) else []).map
+          (fun o => (start ++ rel, o)))) ++ _)
+  obtain ⟨kd, k2b, h3, h4, h5⟩ := map_split _ k2a _ _ h2
+  obtain ⟨ka, k2, h6, h7, _⟩ := map_split _ k2b _ _ h5
+  exact ⟨l1, kd, ka, k2, by rw [h1, h3, h6]; simp, h4, h7⟩
 
 end Fmap
 end XotModel
